@@ -33,4 +33,6 @@ def all_units():
         units_bn_low.register(add)
         import units_bn_api
         units_bn_api.register(add)
+        import units_conv
+        units_conv.register(add)
     return list(_units)
